@@ -87,8 +87,16 @@ def mutate(rng, src, toks):
     real = [t for t in toks if t[0] not in ("EOF",)]
     if not real:
         return src
-    k = rng.below(4)
+    k = rng.below(5)
     t = rng.choice(real)
+    if k == 4:
+        # a keyword (or prefix operator) cut off by a line break, in place of / in front of a token: `f(1, if\n))`
+        kw = rng.choice(["if", "switch", "func", "for", "go", "defer", "return", "import", "from", "const", "var", "!", "-",
+                         "if x", "switch x {", "func(", "x.", "x[", "x ?", "case", "not", "in", "range"])
+        brk = rng.choice(["\n", "\n\n", " \n ", "\r\n"])
+        if rng.chance(1, 2):
+            return src[:t[1]] + kw + brk + src[t[2] + 1:]
+        return src[:t[1]] + kw + brk + src[t[1]:]
     if k == 3:
         # a line break / separator / comment right after an opener, operator or separator
         cand = [x for x in real if src[x[1]:x[2] + 1] in ("[", "(", "{", ",", ":", ":=", "=", "+", "-", "*", "==", "&&", "||", "?", "!", "in",
